@@ -82,6 +82,16 @@ def systematic(tier):
             out.append({'check': ID, 'virtual': {'length': n, 'wrapped': wrapped, 'have': [0, 1, 100]},
                         'config': {'stream_kind': 'file', 'threshold': None, 'chunks': [400], 'open_polls': 1,
                                    'poll_each_chunk': False}})
+    # the same with tens of MiB of the content present: the cut falls far behind the first internal read,
+    # wherever an implementation splits a large read into pieces (16, 32, 64 MiB)
+    M = 1 << 20
+    big = [(96 * M + 12345, [32 * M + 1000]), (200 * M + 1, [64 * M + 77])]
+    if tier != 'quick':
+        big += [(96 * M + 12345, [16 * M + 5, 64 * M]), (200 * M + 1, [96 * M + 9, 128 * M + 1])]
+    for n, have in big:
+        out.append({'check': ID, 'virtual': {'length': n, 'wrapped': False, 'have': have},
+                    'config': {'stream_kind': 'file', 'threshold': None, 'chunks': [400], 'open_polls': 1,
+                               'poll_each_chunk': False}, 'timeout_s': 900})
     return out
 
 
